@@ -51,7 +51,10 @@ THEOREMS = {
         "C12_facts", "C12_blocking_le_one", "C12_blocking_ignores_worker_limit", "C12_pool_le_n", "C12_pool_reaches_n",
         "C12_pool_full_blocks", "C12_unbounded_loop_never_waits", "C12_unbounded_no_bound",
         "C12_blocking_le_one_code", "C12_pool_le_n_code", "C12_unbounded_loop_never_waits_code",
-        "C12_handoff_within_run", "C12_stale_worker_steals_shared_channel"]],
+        "C12_handoff_within_run", "C12_stale_worker_steals_shared_channel"]] +
+           # the pool model counts one dispatched job, retries included, as one occupancy of its worker / of the blocking loop:
+           # the shape of executeWithRetries (no goroutine of its own) is an obligation here as well
+           [("QuartzModel.Theorems.C13", "Sched.Retry.C13_facts")],
     "C10": [("QuartzModel.Theorems.C10", "Lifecycle." + t) for t in [
         "C10_facts", "C10_start_idempotent", "C10_stop_idempotent", "C10_isStarted_latest", "C10_started_at_quiescence",
         "C10_cancel_eq_stop", "C10_restart", "C10_restart_unguarded_fails", "C10_cancel_start_race_unrepaired",
@@ -63,7 +66,9 @@ THEOREMS = {
            [("QuartzModel.Proofs.ZoneLemmas", "Cron.zoneLoop_spec"), ("QuartzModel.Proofs.ZoneLemmas", "Cron.zoneLoop_fuel")] + FACTS[:2],
     "C03": COMPOSE[:3] + COMPOSE[8:] + SCHEDFACTS + [("QuartzModel.Theorems.C03", "Sched." + t) for t in ['C03_dispatch_has_entry', 'C03_never_early', 'C03_dispatch_is_popped_min', 'C03_own_trigger_once', 'C03_dispatch_answers_own_trigger', 'C03_at_most_once']], "C04": COMPOSE[3:8] + SCHEDFACTS + [("QuartzModel.Theorems.C04", "Sched." + t) for t in ['C04_accounted', 'C04_suspended_untouched', 'C04_misfire_iff_late', 'C04_misfire_only_if_late', 'C04_leaves_registry', 'C04_no_drift', 'C04_no_drift_start', 'C04_run_once', 'C04_hyps_reachable']], "C08": SCHEDFACTS + [("QuartzModel.Theorems.C12", "Pool.C12_facts")] + [("QuartzModel.Theorems.C08", "Sched." + t) for t in ['C08_pause_effect', 'C08_resume_from_now', 'C08_paused_no_consumption', 'C08_delete_effect', 'C08_clear_effect', 'C08_paused_no_consumption_reachable', 'C08_delete_effect_reachable', 'C08_clear_effect_reachable']],
     "C09": [("QuartzModel.Theorems.C09", "Sched." + t) for t in ['C09_schedule_error_unchanged', 'C09_schedule_error_state_unchanged', 'C09_delete_error_unchanged', 'C09_pause_error_unchanged', 'C09_resume_error_unchanged', 'C09_schedule_error_iff', 'C09_delete_error_iff', 'C09_pause_error_iff', 'C09_resume_error_iff', 'C09_keys_unique', 'C09_keys_unique_entry', 'C09_keys_unique_count', 'C09_replace_exact', 'C09_no_replace_rejected']] + [("QuartzModel.Theorems.C09Lin", "Sched." + t) for t in ["C09_lock_facts", "C09_unlocked_are_reads", "C09_schedule_reads_under_lock", "pauseOp_run", "C09_linearizable"]] +
-           [("QuartzModel.Concurrency.Lock", "Lock.linearizable")],
+           [("QuartzModel.Concurrency.Lock", "Lock.linearizable")] +
+           # the loop's pop / classify / ask-the-trigger / push step is one critical section (one atomic step of the linearizability argument)
+           [t for t in SCHEDFACTS if t[1] not in ("Sched.C09_lock_facts", "Sched.C09_unlocked_are_reads")],
     "C11": [("QuartzModel.Theorems.C11", "Queue." + t) for t in [
         "hpush_perm", "hpush_heap", "hpop_spec", "hpop_empty", "hremove_spec", "heap_root_min",
         "C11_inv_step", "C11_inv_reachable", "C11_push_new", "C11_push_duplicate", "C11_push_replace", "C11_pop_min",
